@@ -435,6 +435,111 @@ pub fn capsweep_seeds(out: &mut Vec<Seed>) {
         f0.extend((0..n).map(|i| (i % 3) as u8));
         out.push(seed(format!("synth:cap/fdselect0-glyphs={n}"), fd_ty, "fdselect", [0; 3], f0, vec![]));
     }
+    // SVG document records: offset / length boundary values crossed
+    let svg_ty = crate::registry::find("svg::Svg");
+    {
+        let list_len = 2 + 12 + 8u32; // numEntries + one record + 8 data bytes
+        let vals = [0u32, 1, list_len - 1, list_len, 0x7FFF_FFFF, 0x8000_0000, 0xFFFF_FFFE, 0xFFFF_FFFF];
+        for off in vals {
+            for len in vals {
+                let mut t = vec![];
+                be16(&mut t, 0);
+                be32(&mut t, 10);
+                be32(&mut t, 0);
+                be16(&mut t, 1);
+                be16(&mut t, 1); // startGlyphID
+                be16(&mut t, 3); // endGlyphID
+                be32(&mut t, off);
+                be32(&mut t, len);
+                t.extend([b'<', b's', b'v', b'g', b'/', b'>', b' ', b' ']);
+                out.push(seed(format!("synth:cap/svg-doc-offset={off},length={len}"), svg_ty, "misc", [0, 0, u32::from_be_bytes(*b"SVG ")], t, vec![]));
+            }
+        }
+    }
+    // TrueType bytecode: every push opcode with its operand bytes cut at every length
+    {
+        let mut progs: Vec<(String, Vec<u8>)> = vec![];
+        for op in (0xB0u8..=0xBF).chain([0x40, 0x41]) {
+            let (count_byte, operand_len): (Option<u8>, usize) = match op {
+                0x40 => (Some(3), 3),
+                0x41 => (Some(3), 6),
+                0xB0..=0xB7 => (None, (op - 0xB0 + 1) as usize),
+                _ => (None, 2 * (op - 0xB8 + 1) as usize),
+            };
+            let mut full = vec![0x4Bu8, op]; // MPPEM first, then the push
+            if let Some(c) = count_byte {
+                full.push(c);
+            }
+            full.extend((0..operand_len).map(|i| i as u8 + 1));
+            for cut in 2..=full.len() {
+                progs.push((format!("op={op:02x},len={cut}of{}", full.len()), full[..cut].to_vec()));
+            }
+        }
+        progs.push(("npushb-count-255-short".into(), vec![0x40, 0xFF, 1, 2, 3]));
+        progs.push(("npushw-count-255-short".into(), vec![0x41, 0xFF, 1, 2, 3]));
+        for (label, p) in progs {
+            out.push(seed(format!("synth:cap/bytecode-{label}"), None, "bytecode", [0; 3], p, vec![]));
+        }
+    }
+    // COLR v1 variable paints with varIndexBase at the top of u32, and translate chains / a self-referencing paint
+    let colr_ty = crate::registry::find("colr::Colr");
+    {
+        let colr_with = |paints: Vec<u8>| -> Vec<u8> {
+            let mut t = vec![];
+            be16(&mut t, 1);
+            be16(&mut t, 0);
+            be32(&mut t, 0);
+            be32(&mut t, 0);
+            be16(&mut t, 0);
+            be32(&mut t, 34); // baseGlyphListOffset
+            be32(&mut t, 0);
+            be32(&mut t, 0);
+            be32(&mut t, 0);
+            be32(&mut t, 0);
+            be32(&mut t, 1); // numBaseGlyphPaintRecords
+            be16(&mut t, 1); // glyph 1
+            be32(&mut t, 10); // paint offset from the list
+            t.extend(paints);
+            t
+        };
+        let solid = [2u8, 0, 0, 0x40, 0]; // PaintSolid palette 0 alpha 1.0
+        // (format, number of i16 fields between the child offset and varIndexBase, has child)
+        let var_paints: [(u8, usize, bool); 10] =
+            [(3, 2, false), (15, 2, true), (17, 2, true), (19, 4, true), (21, 1, true), (23, 3, true), (25, 1, true), (27, 3, true), (29, 2, true), (31, 4, true)];
+        for (fmt, fields, child) in var_paints {
+            for base in [0u32, 1, 0x7FFF_FFFF, 0xFFFF_FFF8, 0xFFFF_FFFC, 0xFFFF_FFFD, 0xFFFF_FFFE, 0xFFFF_FFFF] {
+                let mut p = vec![fmt];
+                let len = 1 + if child { 3 } else { 0 } + 2 * fields + 4;
+                if child {
+                    p.extend([0, 0, len as u8]);
+                }
+                for i in 0..fields {
+                    be16(&mut p, 0x100 * (i as u16 + 1));
+                }
+                be32(&mut p, base);
+                if child {
+                    p.extend(solid);
+                }
+                out.push(seed(format!("synth:cap/colr-var-paint-format={fmt},varIndexBase={base}"), colr_ty, "colr", [0; 3], colr_with(p), vec![]));
+            }
+        }
+        for depth in [2usize, 63, 64, 65, 2000] {
+            for cyclic in [false, true] {
+                let mut p = vec![];
+                for i in 0..depth {
+                    let last = i + 1 == depth;
+                    // PaintTranslate: format 14, paintOffset24, dx, dy; the last one points at itself when cyclic
+                    p.extend([14u8, 0, 0, if last && cyclic { 0 } else { 8 }]);
+                    be16(&mut p, 1);
+                    be16(&mut p, 1);
+                }
+                if !cyclic {
+                    p.extend(solid);
+                }
+                out.push(seed(format!("synth:cap/colr-translate-chain-depth={depth},cyclic={cyclic}"), colr_ty, "colr", [0; 3], colr_with(p), vec![]));
+            }
+        }
+    }
     // avar 2 coordinate buffer: 64 axes
     let fvar_ty = crate::registry::find("fvar::Fvar");
     for n in [1u16, 63, 64, 65, 100] {
